@@ -563,9 +563,34 @@ impl ErasedList {
     /// Both `self` and `other` must have the same element type.
     ///
     pub unsafe fn concat(&self, other: &Self) -> Self {
-        #[cfg(feature = "verif-hooks")]
-        c16_api::sched_lock(&self.0, "ErasedList::concat:self");
-        let a = self.0.lock().unwrap();
+        // Both operands stay locked while they are copied, so that the
+        // result is their concatenation at one point in time: a concurrent
+        // push to either list lands entirely before or entirely after the
+        // concat. The two mutexes are taken in address order (as in `eq`),
+        // and only once if both operands are the same list, since we cannot
+        // lock the same mutex twice.
+        let (a, b) = if Arc::ptr_eq(&self.0, &other.0) {
+            #[cfg(feature = "verif-hooks")]
+            c16_api::sched_lock(&self.0, "ErasedList::concat:self");
+            let a = self.0.lock().unwrap();
+            (a, None)
+        } else if Arc::as_ptr(&self.0) < Arc::as_ptr(&other.0) {
+            #[cfg(feature = "verif-hooks")]
+            c16_api::sched_lock(&self.0, "ErasedList::concat:self");
+            let a = self.0.lock().unwrap();
+            #[cfg(feature = "verif-hooks")]
+            c16_api::sched_lock(&other.0, "ErasedList::concat:other");
+            let b = other.0.lock().unwrap();
+            (a, Some(b))
+        } else {
+            #[cfg(feature = "verif-hooks")]
+            c16_api::sched_lock(&other.0, "ErasedList::concat:other");
+            let b = other.0.lock().unwrap();
+            #[cfg(feature = "verif-hooks")]
+            c16_api::sched_lock(&self.0, "ErasedList::concat:self");
+            let a = self.0.lock().unwrap();
+            (a, Some(b))
+        };
 
         let new = Self::new(a.vtable.clone());
         #[cfg(feature = "verif-hooks")]
@@ -575,18 +600,8 @@ impl ErasedList {
         // SAFETY: self and other have the same element type
         unsafe { raw.extend(&a) };
 
-        // This drop is important in the case that self == other
-        // We need to ensure we don't lock the mutex twice
-        drop(a);
-
-        #[cfg(feature = "verif-hooks")]
-        c16_api::sched_lock(&other.0, "ErasedList::concat:other");
-        let b = other.0.lock().unwrap();
-
         // SAFETY: raw and b have the same element type
-        unsafe { raw.extend(&b) };
-
-        drop(b);
+        unsafe { raw.extend(b.as_deref().unwrap_or(&a)) };
 
         drop(raw);
 
